@@ -94,6 +94,37 @@ func runC27(c *Ctx) {
 	}
 	c.Floor("callback-unlocked", 2)
 
+	// (2b) per-id tracking (1.20.3+): a response for an id with nothing outstanding must be judged with
+	// the origin of the already applied pack — the report gate only knows the origin through the pack
+	// info it is handed, and nil means "backend's pack".
+	if mo := c.MustFunc(pkgRP + ":(*modernHandler).OnResourcePackResponse"); mo != nil {
+		ok := false
+		for _, ci := range callsIn(mo, func(nm string, cc *ssa.CallCommon) bool { return methodName(cc) == "HandleResponseResult" }) {
+			a := ci.Common().Args[1]
+			fromApplied := derivesFrom(a, 4, func(v ssa.Value) bool {
+				lk, isLk := v.(*ssa.Lookup)
+				return isLk && strings.HasSuffix(PathOf(lk.X), ".appliedPacks")
+			})
+			if !fromApplied {
+				continue
+			}
+			// reached only when nothing was outstanding for the id
+			g, n := MustCross(ci, func(e Edge, cond ssa.Value, truth bool) bool {
+				v, isNil, isCmp := nilCmp(cond, truth)
+				if !isCmp || !isNil {
+					return false
+				}
+				_, isPhi := strip(v).(*ssa.Phi)
+				return isPhi
+			})
+			if g && n > 0 {
+				ok = true
+			}
+		}
+		c.CheckAt("applied-origin-consulted", "HandleResponseResult(appliedPacks[id])@modernHandler.OnResourcePackResponse", c.P.Pos(mo.Pos()), ok,
+			"when no pack is outstanding for the id, the response must be judged with the applied pack's info (its origin); otherwise a repeated SUCCESSFUL for a proxy-originated pack is reported to the backend")
+	}
+
 	// (3) origin gate
 	hr := c.MustFunc(pkgRP + ":handleResponseResult")
 	origin := c.P.Const(pkgRP + ":PluginOnProxyOrigin")
